@@ -1,7 +1,11 @@
 use std::cell::{Cell, RefCell};
 use std::fmt::Debug;
 use std::rc::{Rc, Weak};
+#[cfg(not(calloop_verif_shuttle))]
 use std::sync::atomic::{AtomicBool, Ordering};
+// verification only: shuttle's model of the same primitive
+#[cfg(calloop_verif_shuttle)]
+use shuttle::sync::atomic::{AtomicBool, Ordering};
 use std::sync::Arc;
 use std::time::{Duration, Instant};
 use std::{io, slice};
